@@ -26,7 +26,7 @@ class FT:
         self.kind, self.cls = kind, cls  # kind in num,int,bool,ref,seq,mat,refseq,refset,str,opaque
 
 
-OPTSEQ, CALLREF, FUN = FT("optseq"), FT("callref"), FT("fun")
+OPTSEQ, CALLREF, FUN, PYOBJ, MAP = FT("optseq"), FT("callref"), FT("fun"), FT("pyobj"), FT("map")
 NUM, INT, BOOL, SEQ, MAT, STR, OPQ, OPTNUM = FT("num"), FT("int"), FT("bool"), FT("seq"), FT("mat"), FT("str"), FT("opaque"), FT("optnum")
 
 
@@ -54,6 +54,7 @@ HEAP_SORTS = {
     "optnum": {"": arr(Ref, R), "none": arr(Ref, B)},
     "optseq": {"": arr(Ref, I, R), "len": arr(Ref, I), "none": arr(Ref, B)},
     # union None | ndarray | callable bound to (owner container): kind 0/1/2
+    "map": {"size": arr(Ref, I)},
     "callref": {"kind": arr(Ref, I), "": arr(Ref, I, R), "len": arr(Ref, I), "owner": arr(Ref, Ref)},
 }
 
@@ -200,6 +201,50 @@ class VLib(V):
         self.name = name
 
 
+class VLambda(V):
+    """a lambda / nested function closure over the defining state's locals"""
+
+    def __init__(self, node, env):
+        self.node, self.env = node, env
+
+
+class VSuper(V):
+    """super(Cls, self): attribute lookup continues after Cls in the MRO of the receiver's class"""
+
+    def __init__(self, recv, after):
+        self.recv, self.after = recv, after
+
+
+class VStar(V):
+    """*seq in a call with a symbolic-length sequence"""
+
+    def __init__(self, seq):
+        self.seq = seq
+
+
+class VZip(V):
+    def __init__(self, parts):
+        self.parts = parts
+
+
+class VEnum(V):
+    def __init__(self, inner):
+        self.inner = inner
+
+
+class VRange(V):
+    def __init__(self, lo, hi):
+        self.lo, self.hi = lo, hi
+
+
+class VNode(V):
+    """a nexus node looked up by (concrete) name: `.value` is supplied by the contract module (eng.node_values), protocol calls
+    (mark_for_update, update, freeze, ...) are recorded in st.ghost['node_calls'] - graph behaviour itself is C04's subject"""
+
+    def __init__(self, name, owner=None):
+        self.name, self.owner = name, owner
+
+
 class VExternal(V):
     """an external object (backend handle, matplotlib axes, ...): attribute calls are recorded in rec['calls'] as
     (method, args, kwargs) and return an opaque value (havoc); assumed contracts are stated by the caller's post"""
@@ -247,9 +292,12 @@ class Repo:
             todo.extend(ast.unparse(b).split(".")[-1] for b in self.classes[c][1].bases)
         return out
 
-    def find(self, cls, name, kind=None, include_static=True):
+    def find(self, cls, name, kind=None, include_static=True, after=None):
         """resolve method/property through the MRO of the REAL class statements; returns (owner, FunctionDef)"""
-        for c in self.mro(cls):
+        mro = self.mro(cls)
+        if after is not None and after in mro:
+            mro = mro[mro.index(after) + 1:]
+        for c in mro:
             for f in self.classes[c][1].body:
                 if isinstance(f, ast.FunctionDef) and f.name == name:
                     decos = [ast.unparse(d) for d in f.decorator_list if ast.unparse(d) not in ("staticmethod", "classmethod", "abc.abstractmethod", "abstractmethod")]
@@ -366,6 +414,7 @@ class Engine:
         self.timeout = timeout_ms
         self.cur_loops = {}
         self.functions = []
+        self._owner_stack = []
         self._prefix = ""
         self.exc_mode = False  # True: library failures fork raise paths instead of obligations
 
@@ -418,6 +467,13 @@ class Engine:
             return VOpaque(("refset", field, ref))
         if k == "fun":
             return VOpaque(("fun", field))
+        if k == "map":
+            return VOpaque(("map", sel(st.h(field, k, "size"), ref.e)))
+        if k == "pyobj":
+            key = ("pyobj", field, str(ref.e))
+            if key not in st.heap:
+                raise Unsupported(f"pyobj field {ref.cls}.{field} read before it was set (give it a value in init)")
+            return st.heap[key]
         raise Unsupported("field kind " + k)
 
     def write_field(self, st, ref, field, v):
@@ -463,6 +519,8 @@ class Engine:
             st.set_h(field, k, "", z3.Store(st.h(field, k), ref.e, materialise(v.arr, field)))
             st.set_h(field, k, "rows", z3.Store(st.h(field, k, "rows"), ref.e, v.rows))
             st.set_h(field, k, "cols", z3.Store(st.h(field, k, "cols"), ref.e, v.cols))
+        elif k == "pyobj":
+            st.heap[("pyobj", field, str(ref.e))] = v
         else:
             raise Unsupported("write field kind " + k)
 
@@ -584,6 +642,8 @@ class Engine:
             return VBool(z3.BoolVal(n.id == "True"))
         if n.id in ("np", "warnings", "integrate"):
             return VLib(n.id)
+        if n.id == "super":
+            return VLib("super")
         if n.id in ("len", "list", "float", "int", "zip", "enumerate", "range", "abs", "isinstance", "tuple", "max", "min", "dict"):
             return VLib(n.id)
         if n.id in self.repo.classes:
@@ -592,8 +652,56 @@ class Engine:
             return VLib(n.id)
         raise Unsupported("unbound name " + n.id)
 
+    def ev_Lambda(self, n, st):
+        return VLambda(n, dict(st.locals))
+
+    def call_lambda(self, lam, args, kw, st):
+        sub = State()
+        sub.heap, sub.pc, sub.ghost, sub.decisions = st.heap, st.pc, st.ghost, st.decisions
+        sub.locals = dict(lam.env)
+        a = lam.node.args
+        names = [x.arg for x in a.args]
+        for p_, v_ in zip(names, args):
+            sub.locals[p_] = v_
+        sub.locals.update(kw)
+        for p_, d in zip(names[len(names) - len(a.defaults):], a.defaults):
+            if p_ not in sub.locals or (p_ not in kw and names.index(p_) >= len(args)):
+                sub.locals[p_] = self.ev(d, sub)
+        if a.vararg:
+            sub.locals[a.vararg.arg] = VTuple(list(args[len(names):]))
+        if isinstance(lam.node, ast.Lambda):
+            r = self.ev(lam.node.body, sub)
+            st.heap, st.pc = sub.heap, sub.pc
+            return r
+        outs = self.run(lam.node.body, sub)
+        normal = [(s_, fl, v_) for s_, fl, v_ in outs if fl in ("next", "return")]
+        if len(outs) != 1 or len(normal) != 1:
+            raise Unsupported(f"nested function {lam.node.name} forks ({len(outs)} paths)")
+        s_, fl, v_ = normal[0]
+        st.heap, st.pc, st.ghost = s_.heap, s_.pc, s_.ghost
+        return v_ if fl == "return" and v_ is not None else VNone()
+
+    def st_FunctionDef(self, n, st):
+        st.locals[n.name] = VLambda(n, st.locals)      # closure shares the defining scope (late binding, as in Python)
+        return [(st, "next", None)]
+
     def ev_JoinedStr(self, n, st):
         return VStr("<f-string>")
+
+    def ev_ListComp(self, n, st):
+        if len(n.generators) != 1 or n.generators[0].ifs:
+            raise Unsupported("comprehension " + ast.unparse(n))
+        g = n.generators[0]
+        it = self.ev(g.iter, st)
+        if not isinstance(it, VTuple):
+            raise Unsupported("comprehension over non-concrete iterable " + ast.unparse(n))
+        out = []
+        saved = dict(st.locals)
+        for item in it.items:
+            self.store(g.target, item, st)
+            out.append(self.ev(n.elt, st))
+        st.locals = saved
+        return VTuple(out)
 
     def ev_List(self, n, st):
         if n.elts:
@@ -631,12 +739,30 @@ class Engine:
             return VBound(base, n.attr)
         if isinstance(base, VExternal):
             return VBound(base, n.attr)
+        if isinstance(base, VNode):
+            if n.attr == "value":
+                nv = getattr(self, "node_values", {})
+                if base.name not in nv:
+                    raise Unsupported("value of nexus node '%s' not modelled" % base.name)
+                v_ = nv[base.name]
+                return v_(st, base) if callable(v_) else v_
+            if n.attr == "name":
+                return VStr(base.name)
+            return VBound(base, n.attr)
         if isinstance(base, VRef) and n.attr == "__class__":
             return VLib("class:" + base.cls)
         if isinstance(base, VLib):
             if base.name == "np" and n.attr == "inf":
                 return VOpaque("inf")
             return VLib(base.name + "." + n.attr)
+        if isinstance(base, VSuper):
+            if self.repo.find(base.recv.cls, n.attr, "getter", after=base.after)[1] is not None:
+                return self.call_method(st, base.recv, n.attr, [], {}, kind="getter", node=n, after=base.after)
+            if self.repo.find(base.recv.cls, n.attr, None, after=base.after)[1] is not None:
+                b_ = VBound(base.recv, n.attr)
+                b_.after = base.after
+                return b_
+            raise Unsupported(f"super attribute {n.attr}")
         if isinstance(base, VRef):
             if self.ftype(base.cls, n.attr) is not None:
                 return self.read_field(st, base, n.attr)
@@ -644,7 +770,15 @@ class Engine:
                 return self.call_method(st, base, n.attr, [], {}, kind="getter", node=n)
             if self.repo.find(base.cls, n.attr)[1] is not None:
                 return VBound(base, n.attr)
+            for c in self.repo.mro(base.cls):           # class-level constant read through the instance
+                for stmt in self.repo.classes[c][1].body:
+                    if isinstance(stmt, ast.Assign) and any(isinstance(t, ast.Name) and t.id == n.attr for t in stmt.targets):
+                        return self.ev(stmt.value, st)
             raise Unsupported(f"attribute {base.cls}.{n.attr}")
+        if isinstance(base, VOpaque) and isinstance(base.tag, tuple) and base.tag[0] == "map" and n.attr in ("keys", "values", "items", "copy"):
+            return VBound(base, n.attr)
+        if isinstance(base, VTuple) and n.attr in ("index", "append", "copy", "count"):
+            return VBound(base, n.attr)
         if isinstance(base, VSeq) and n.attr == "append":
             return VBound(base, "append")
         if isinstance(base, (VSeq, VMat)) and n.attr == "copy":
@@ -720,6 +854,16 @@ class Engine:
     def binop(self, op, a, b, n=None):
         if isinstance(a, VStr) and isinstance(op, (ast.Mod, ast.Add)):
             return VStr("<formatted>")
+        if isinstance(op, ast.Add) and isinstance(a, VTuple) and isinstance(b, VTuple):
+            return VTuple(a.items + b.items)
+        if isinstance(op, ast.Add) and isinstance(a, VTuple) and isinstance(b, VRefSeq) and all(isinstance(x, VRef) for x in a.items):
+            items = list(a.items)
+            def fn(k_, items=items, b=b):
+                r = b.arr[k_ - len(items)]
+                for idx in reversed(range(len(items))):
+                    r = z3.If(k_ == idx, items[idx].e, r)
+                return r
+            return VRefSeq(FnArr(fn), b.len + len(items), b.cls)
         if isinstance(op, ast.Add) and isinstance(a, VSeq) and isinstance(b, VSeq) and a.pylist and b.pylist:
             return self.concat(a, b)
         if isinstance(a, VNum) and isinstance(b, VNum):
@@ -758,7 +902,9 @@ class Engine:
                 if isinstance(right, VNone) and isinstance(left, (VStr, VLib)):
                     c = z3.BoolVal(False)
                 elif isinstance(right, VNone):
-                    if isinstance(left, VRef):
+                    if isinstance(left, VNode):
+                        c = z3.BoolVal(False)
+                    elif isinstance(left, VRef):
                         c = left.e == NULL
                     elif isinstance(left, (VOptNum, VOptSeq)):
                         c = left.none
@@ -830,21 +976,56 @@ class Engine:
         args = []
         for a in n.args:
             if isinstance(a, ast.Starred):
-                args.extend(self.ev(a.value, st).items)
+                sv = self.ev(a.value, st)
+                if isinstance(sv, VTuple):
+                    args.extend(sv.items)
+                else:
+                    args.append(VStar(sv))
             else:
                 args.append(self.ev(a, st))
         kw = {k.arg: self.ev(k.value, st) for k in n.keywords}
+        if isinstance(f, VLib) and f.name == "super":
+            if args:
+                return VSuper(args[1], args[0].name[6:])
+            return VSuper(st.locals["self"], self._owner_stack[-1])
         if isinstance(f, VLib):
             if f.name in self.lib:
                 return self.lib[f.name](self, st, args, kw, n)
             raise Unsupported("library call " + f.name)
+        if isinstance(f, VLambda):
+            return self.call_lambda(f, args, kw, st)
+        if isinstance(f, VRef):
+            return self.call_method(st, f, "__call__", args, kw, node=n)
         if isinstance(f, VOpaque) and isinstance(f.tag, tuple) and f.tag[0] == "fun":
+            if f.tag[1] in getattr(self, "fun_models", {}):
+                return self.fun_models[f.tag[1]](self, st, args, kw, n)
             return self.apply_uf(f.tag[1], args, st)
         if isinstance(f, VCallRef):
             self.oblige("pre@callable:" + ast.unparse(n)[:40], st, f.kind == 2)
             return self.read_field(st, VRef(f.owner, self.callref_owner_cls), self.callref_owner_field)
         if isinstance(f, VBound) and isinstance(f.recv, VStr):
             return VStr("<formatted>")
+        if isinstance(f, VBound) and isinstance(f.recv, VOpaque):
+            return f.recv          # keys()/values()/copy() of an abstract finite map: same size
+        if isinstance(f, VBound) and isinstance(f.recv, VTuple):
+            if f.name == "append":
+                f.recv.items.append(args[0])
+                return VNone()
+            if f.name == "copy":
+                return VTuple(list(f.recv.items))
+            if f.name == "index":
+                for q_, it_ in enumerate(f.recv.items):
+                    if isinstance(it_, VStr) and isinstance(args[0], VStr) and it_.s == args[0].s:
+                        return VNum(z3.IntVal(q_))
+                    if it_ is args[0]:
+                        return VNum(z3.IntVal(q_))
+                if all(isinstance(it_, VStr) for it_ in f.recv.items) and isinstance(args[0], VStr):
+                    raise PyRaise("ValueError")
+                raise Unsupported("list.index on non-concrete list")
+        if isinstance(f, VBound) and isinstance(f.recv, VNode):
+            st.ghost = dict(st.ghost)
+            st.ghost["node_calls"] = st.ghost.get("node_calls", ()) + ((f.recv.name, f.name),)
+            return VNone()
         if isinstance(f, VBound) and isinstance(f.recv, VExternal):
             f.recv.rec["calls"].append((f.name, list(args), dict(kw)))
             return VOpaque(("ext", f.recv.name, f.name, len(f.recv.rec["calls"])))
@@ -866,7 +1047,7 @@ class Engine:
                 return f.recv  # ndarray.copy(): same value, fresh identity (values are immutable terms here); dict.values(): the entry sequence
             if isinstance(f.recv, VSeq) and f.name == "append":
                 raise Unsupported("append on non-field list")
-            return self.call_method(st, f.recv, f.name, args, kw, node=n)
+            return self.call_method(st, f.recv, f.name, args, kw, node=n, after=getattr(f, "after", None))
         raise Unsupported("call " + ast.unparse(n.func))
 
     def bool_reduce(self, bs, how):
@@ -875,13 +1056,14 @@ class Engine:
         return VBool(z3.ForAll([q], z3.Implies(rng, bs.fn(q))) if how == "all" else z3.Exists([q], z3.And(rng, bs.fn(q))))
 
     # ---- method calls: contract, else inline the REAL body (no recursion without contract)
-    def call_method(self, st, recv, name, args, kw, kind=None, node=None):
-        owner, fdef = self.repo.find(recv.cls, name, kind)
+    def call_method(self, st, recv, name, args, kw, kind=None, node=None, after=None):
+        owner, fdef = self.repo.find(recv.cls, name, kind, after=after)
         if fdef is None:
             raise Unsupported(f"method {recv.cls}.{name}")
-        c = self.contracts.get((owner, name, kind)) or self.contracts.get((recv.cls, name, kind))
+        c = self.contracts.get((owner, name, kind)) or (self.contracts.get((recv.cls, name, kind)) if after is None else None)
         if c is None:
-            for anc in self.repo.mro(recv.cls):
+            mro_ = self.repo.mro(recv.cls)
+            for anc in mro_[mro_.index(owner):]:
                 if (anc, name, kind) in self.contracts:
                     c = self.contracts[(anc, name, kind)]
                     break
@@ -900,10 +1082,12 @@ class Engine:
             if p not in sub.locals:
                 sub.locals[p] = self.ev(d, sub)
         self._ctx = getattr(self, "_ctx", ()) + (id(node),)
+        self._owner_stack.append(owner)
         try:
             outs = self.run(fdef.body, sub)
         finally:
             self._ctx = self._ctx[:-1]
+            self._owner_stack.pop()
         raises = [(s_, fl, v_) for s_, fl, v_ in outs if fl == "raise"]
         if len(outs) == 1 and len(raises) == 1:
             st.heap, st.pc, st.ghost = raises[0][0].heap, raises[0][0].pc, raises[0][0].ghost
@@ -919,6 +1103,8 @@ class Engine:
         static = any(ast.unparse(d) == "staticmethod" for d in fdef.decorator_list)
         params = [a.arg for a in fdef.args.args][0 if static else 1:]
         amap = dict(zip(params, args))
+        if fdef.args.vararg is not None:
+            amap[fdef.args.vararg.arg] = VTuple(list(args[len(params):]))
         amap.update(kw)
         pre = st.copy()
         view = View(self, pre, None, recv, amap)
@@ -1060,7 +1246,9 @@ class Engine:
     def store(self, t, v, st):
         if isinstance(t, ast.Name):
             st.locals[t.id] = v
-        elif isinstance(t, ast.Tuple):
+        elif isinstance(t, (ast.Tuple, ast.List)):
+            if not isinstance(v, VTuple) or len(v.items) != len(t.elts):
+                raise Unsupported("unpacking " + ast.unparse(t))
             for tt, vv in zip(t.elts, v.items):
                 self.store(tt, vv, st)
         elif isinstance(t, ast.Attribute):
@@ -1071,8 +1259,24 @@ class Engine:
                 self.call_method(st, base, t.attr, [v], {}, kind="setter", node=t)
             else:
                 raise Unsupported(f"store to {base.cls}.{t.attr}")
+        elif isinstance(t, ast.Subscript) and isinstance(self.ev(t.value, st), VTuple):
+            idx = z3.simplify(self.ev(t.slice, st).e)
+            if not z3.is_int_value(idx):
+                raise Unsupported("store into python list at symbolic index: " + ast.unparse(t))
+            self.ev(t.value, st).items[idx.as_long()] = v
         elif isinstance(t, ast.Subscript) and isinstance(self.ev(t.value, st), VDict):
             self.ev(t.value, st).d[self.key_of(self.ev(t.slice, st))] = v
+        elif isinstance(t, ast.Subscript) and isinstance(t.slice, ast.Slice):
+            seq = self.ev(t.value, st)
+            lo = self.norm_index(self.ev(t.slice.lower, st).e, seq.len) if t.slice.lower is not None else z3.IntVal(0)
+            hi = self.norm_index(self.ev(t.slice.upper, st).e, seq.len) if t.slice.upper is not None else seq.len
+            self.oblige("pre@slice-store:" + ast.unparse(t), st, z3.And(0 <= lo, lo <= hi, hi <= seq.len))
+            if isinstance(v, VSeq):
+                self.oblige("pre@slice-store-shape:" + ast.unparse(t), st, v.len == hi - lo)
+                new = VSeq(FnArr(lambda k_: z3.If(z3.And(lo <= k_, k_ < hi), v.arr[k_ - lo], seq.arr[k_])), seq.len)
+            else:
+                new = VSeq(FnArr(lambda k_: z3.If(z3.And(lo <= k_, k_ < hi), v.real(), seq.arr[k_])), seq.len)
+            self.store(t.value, new, st)
         elif isinstance(t, ast.Subscript):
             seq = self.ev(t.value, st)
             i = self.norm_index(self.ev(t.slice, st).e, seq.len)
@@ -1082,8 +1286,8 @@ class Engine:
             raise Unsupported("store " + ast.unparse(t))
 
     def st_AugAssign(self, n, st):
-        cur = self.ev(n.target, st)
-        rhs = self.ev(n.value, st)
+        cur = self.num(self.ev(n.target, st), st, ast.unparse(n))
+        rhs = self.num(self.ev(n.value, st), st, ast.unparse(n))
         if isinstance(n.op, ast.Add) and isinstance(cur, VSeq) and isinstance(rhs, VSeq) and (cur.pylist or self.is_list_target(n.target, st)):
             new = self.concat(cur, rhs)
         else:
@@ -1181,13 +1385,59 @@ class Engine:
             exits.append((ex, "next", None))
         return exits
 
+    def iter_len(self, it):
+        if isinstance(it, (VSeq, VRefSeq)):
+            return it.len
+        if isinstance(it, VZip):
+            r = self.iter_len(it.parts[0])
+            for p_ in it.parts[1:]:
+                l2 = self.iter_len(p_)
+                r = z3.If(r <= l2, r, l2)
+            return r
+        if isinstance(it, VEnum):
+            return self.iter_len(it.inner)
+        if isinstance(it, VRange):
+            return z3.If(it.hi >= it.lo, it.hi - it.lo, z3.IntVal(0))
+        raise Unsupported("iteration over " + type(it).__name__)
+
+    def iter_item(self, it, i):
+        if isinstance(it, VSeq):
+            return VNum(it.arr[i])
+        if isinstance(it, VRefSeq):
+            return VRef(it.arr[i], it.cls)
+        if isinstance(it, VZip):
+            return VTuple([self.iter_item(p_, i) for p_ in it.parts])
+        if isinstance(it, VEnum):
+            return VTuple([VNum(i), self.iter_item(it.inner, i)])
+        if isinstance(it, VRange):
+            return VNum(it.lo + i)
+        raise Unsupported("iteration over " + type(it).__name__)
+
     def st_For(self, n, st):
-        """for x in <seq>: body   ==   i=0; while i < len: x = seq[i]; body; i+=1   (ghost index '#i<k>')"""
-        k = self.cur_loops["ids"][id(n)]
-        inv = self.cur_loops["inv"][k]
+        """for x in <iterable>: body   ==   i=0; while i < len: x = item(i); body; i+=1   (ghost index '#i<k>').
+        Concrete python lists/tuples (VTuple) are unrolled."""
         it = self.ev(n.iter, st)
-        if not isinstance(it, (VSeq, VRefSeq)):
-            raise Unsupported("for over " + type(it).__name__)
+        if isinstance(it, VTuple):
+            outs = [(st, "next", None)]
+            for item in list(it.items):
+                nxt = []
+                for s_, flow, val in outs:
+                    if flow != "next":
+                        nxt.append((s_, flow, val))
+                        continue
+                    self.store(n.target, item, s_)
+                    for s2, f2, v2 in self.run(n.body, s_):
+                        nxt.append((s2, "next" if f2 == "continue" else f2, v2))
+                outs = nxt
+            outs = [(s_, "next" if fl == "break" else fl, v_) for s_, fl, v_ in outs]
+            if n.orelse:
+                raise Unsupported("for-else")
+            return outs
+        k = self.cur_loops["ids"][id(n)]
+        if k not in self.cur_loops["inv"]:
+            raise Unsupported(f"loop {k} has no invariant in the contract")
+        inv = self.cur_loops["inv"][k]
+        ln = self.iter_len(it)
         gi = f"#i{k}"
         st.locals[gi] = VNum(z3.IntVal(0))
         st.locals[f"#it{k}"] = it
@@ -1196,8 +1446,8 @@ class Engine:
         h.assume(inv(self, h))
         i = h.locals[gi].e
         exits = []
-        b = h.copy().assume(z3.And(0 <= i, i < it.len))
-        self.store(n.target, VNum(it.arr[i]) if isinstance(it, VSeq) else VRef(it.arr[i], it.cls), b)
+        b = h.copy().assume(z3.And(0 <= i, i < ln))
+        self.store(n.target, self.iter_item(it, i), b)
         for s, flow, val in self.run(n.body, b):
             if flow in ("next", "continue"):
                 s.locals[gi] = VNum(s.locals[gi].e + 1)
@@ -1206,7 +1456,7 @@ class Engine:
                 exits.append((s, "next", None))
             else:
                 exits.append((s, flow, val))
-        ex = h.copy().assume(z3.Not(z3.And(0 <= i, i < it.len)))
+        ex = h.copy().assume(z3.Not(z3.And(0 <= i, i < ln)))
         exits.append((ex, "next", None))
         return exits
 
@@ -1250,6 +1500,7 @@ class Engine:
         n0 = len(self.obligations)
         mark = len(self.obligations)
         self._prefix = fid + "/"
+        self._owner_stack = [owner]
         outs = self.run(fdef.body, st)
         outs = [(s, "return" if fl == "next" else fl, VNone() if (fl == "next" or v is None) and fl != "raise" else v) for s, fl, v in outs]
         for idx, (s, flow, val) in enumerate(outs):
